@@ -9,7 +9,7 @@ from rtc.battery import outcome, frame_equal, series_list
 
 
 # ------------------------------------------------------------------------------------------------ data
-def make_frame(rng, target, n=None):
+def make_frame(rng, target, n=None, ties=False):
     n = n or rng.choice([60, 90, 120])
     z1 = np.array([rng.gauss(0, 1) for _ in range(n)]); z2 = np.array([rng.gauss(0, 1) for _ in range(n)]); z3 = np.array([rng.gauss(0, 1) for _ in range(n)])
     noise = lambda s: np.array([rng.gauss(0, s) for _ in range(n)])
@@ -18,13 +18,18 @@ def make_frame(rng, target, n=None):
     else: y = pd.Series(np.round(2 * z1 + z2 + noise(0.8), 4))
     Q = {'qa': z1 + noise(0.3), 'qa_dup': z1 + noise(0.05), 'qa_neg': -(z1 + noise(0.05)), 'qb': z2 + noise(0.5), 'qnoise': z3, 'qhalf': 0.5 * z1 + noise(1.0),
          'qconst': np.full(n, 2.0), 'qnan': np.where(np.array([rng.random() for _ in range(n)]) < 0.3, np.nan, z2 + noise(0.2))}
+    z4 = np.array([rng.gauss(0, 1) for _ in range(n)])
+    Q['qchain_b'] = 0.75 * Q['qa'] + z4 + noise(0.1); Q['qchain_c'] = z4 + noise(0.1)          # qa ~ qchain_b ~ qchain_c, but qa and qchain_c unrelated
     X = pd.DataFrame({k: np.round(v, 4) for k, v in Q.items()})
+    if ties: X['qa_x2'] = X['qa'] * 2.0                                                          # exact positive rescaling: exactly tied with qa on every rank-based measure
     def cat(v, k, names):
         r = pd.qcut(pd.Series(v).rank(method='first'), k, labels=False); return pd.Series([names[int(i)] for i in r], dtype=object)
     X['ca'] = cat(z1 + noise(0.4), 3, ['m', 'a', 'z']); X['ca_dup'] = cat(z1 + noise(0.1), 3, ['u', 'v', 'w']); X['cb'] = cat(z2 + noise(0.6), 4, ['p', 'q', 'r', 's'])
     X['cnoise'] = cat(z3, 3, ['x1', 'x2', 'x3']); X['cconst'] = pd.Series(['only'] * n, dtype=object)
     cn = cat(z2 + noise(0.3), 3, ['k1', 'k2', 'k3']); cn[np.array([rng.random() for _ in range(n)]) < 0.25] = np.nan; X['cnan'] = cn
-    quant = ['qa', 'qa_dup', 'qa_neg', 'qb', 'qnoise', 'qhalf', 'qconst', 'qnan']; qual = ['ca', 'ca_dup', 'cb', 'cnoise', 'cconst', 'cnan']
+    quant = ['qa', 'qa_dup', 'qa_neg', 'qb', 'qnoise', 'qhalf', 'qconst', 'qnan', 'qchain_b', 'qchain_c']; qual = ['ca', 'ca_dup', 'cb', 'cnoise', 'cconst', 'cnan']
+    if ties:
+        X['ca_ren'] = X['ca'].map(lambda v: 'ren_' + v); quant.append('qa_x2'); qual.append('ca_ren')
     return X, y, quant, qual
 
 
@@ -87,7 +92,7 @@ def one(arg):
     rng = random.Random(seed); recs = []
     kind = rng.choice(['ClassificationSelector', 'ClassificationSelector', 'RegressionSelector'])
     target = rng.choice(['binary', 'multiclass']) if kind == 'ClassificationSelector' else 'continuous'
-    X, y, quant, qual = make_frame(rng, target)
+    X, y, quant, qual = make_frame(rng, target, ties=(prop == 'C15' and seed % 2 == 0))
     n_best = rng.choice([1, 2, 3, 5]); tc = rng.choice([1, 0.9, 0.7, 0.5])
     lit = dict(selector=kind, target=target, n_best=n_best, thresh_corr=tc, seed=seed, default_measures=True)
     def rec(clause, ok, msg, extra=None): recs.append((clause, bool(ok), dict(lit, **(extra or {})), msg))
@@ -132,15 +137,33 @@ def one(arg):
         p = list(range(len(X))); rng.shuffle(p)
         r2 = outcome(lambda: make_selector(kind, quant, qual, n_best, thresh_corr=tc).select(X.iloc[p], y.iloc[p]))
         rec('select#post.invariant_under_row_permutation', r2[0] == 'ok' and list(r2[1]) == sel, 'rows permuted: %r instead of %r' % (r2[1] if r2[0] == 'ok' else r2[0], sel))
-        cols = list(X.columns); rng.shuffle(cols); q2 = list(quant); rng.shuffle(q2); c2 = list(qual); rng.shuffle(c2)
-        r2 = outcome(lambda: make_selector(kind, q2, c2, n_best, thresh_corr=tc).select(X[cols], y))
-        rec('select#post.invariant_under_column_permutation', r2[0] == 'ok' and list(r2[1]) == sel, 'columns / feature lists permuted: %r instead of %r' % (r2[1] if r2[0] == 'ok' else r2[0], sel))
+        cols = list(X.columns); rng.shuffle(cols)
+        r2 = outcome(lambda: make_selector(kind, quant, qual, n_best, thresh_corr=tc).select(X[cols], y))
+        rec('select#post.invariant_under_column_permutation', r2[0] == 'ok' and list(r2[1]) == sel, 'columns of X permuted (%r): %r instead of %r' % (cols, r2[1] if r2[0] == 'ok' else r2[0], sel))
         # (4) an exact copy / a strictly monotone image of the target is returned
         if target != 'multiclass':
             for name, col in (('copy_of_target', y.astype(float)), ('monotone_image_of_target', np.exp(y.astype(float) / (abs(y).max() + 1)) * 3 + 1)):
                 X2 = X.copy(); X2['qtarget'] = col
                 r2 = outcome(lambda: make_selector(kind, quant + ['qtarget'], qual, n_best, thresh_corr=tc).select(X2, y))
                 rec('select#post.%s_is_returned' % name, r2[0] == 'ok' and 'qtarget' in list(r2[1]), '%s: a quantitative %s gives %r' % (kind, name, r2[1] if r2[0] == 'ok' else r2[0]), dict(feature='qtarget', what=name))
+    if prop == 'C15' and kind == 'ClassificationSelector' and target == 'binary':
+        from AutoCarver.selectors.measures import R_measure
+        X2 = X.copy(); X2['qtarget'] = y.astype(float); X2['qtarget_mono'] = np.exp(y.astype(float)) * 2 - 1
+        r2 = outcome(lambda: make_selector(kind, quant + ['qtarget', 'qtarget_mono'], qual, max(2, n_best), thresh_corr=1, quantitative_measures=[R_measure]).select(X2, y))
+        rec('select#post.copy_of_target_is_returned', r2[0] == 'ok' and 'qtarget' in list(r2[1]) and 'qtarget_mono' in list(r2[1]), 'user-supplied R_measure: copy / monotone image of the target gives %r' % (r2[1] if r2[0] == 'ok' else r2[0],),
+            dict(feature='qtarget', what='copy_of_target', default_measures=False, measure='R_measure'))
+    if prop == 'C14' and kind == 'ClassificationSelector':
+        # two user-supplied association measures (thresholds set so that both are evaluated): at most n_best PER measure, i.e. the union of the per-measure selections
+        from AutoCarver.selectors.measures import R_measure, kruskal_measure
+        def eta(x, yy):
+            ok = x.notna(); xs, ys = x[ok], yy[ok]; m = xs.mean(); ssb = sum(len(xs[ys == c]) * (xs[ys == c].mean() - m) ** 2 for c in ys.unique()); sst = ((xs - m) ** 2).sum()
+            return math.sqrt(ssb / sst) if sst > 0 else float('nan')
+        r2 = outcome(lambda: make_selector(kind, quant, [], n_best, thresh_corr=tc, quantitative_measures=[kruskal_measure, R_measure], thresh_kruskal=float('inf')).select(X, y))
+        e1, a1, _ = oracle_select(X, y, quant, 'float', n_best, tc, kruskal_h); e2, a2, _ = oracle_select(X, y, quant, 'float', n_best, tc, eta)
+        if r2[0] == 'ok' and not a1 and not a2:
+            rec('select#post.union_of_the_n_best_of_each_measure', set(r2[1]) == set(e1) | set(e2), 'measures [kruskal, R]: returned %r, per-measure recomputation %r and %r' % (list(r2[1]), e1, e2), dict(default_measures=False, dtype='float'))
+        elif r2[0] != 'ok':
+            rec('select#raises.nothing_on_valid_input', False, 'two measures: %s' % r2[0], dict(default_measures=False))
     return recs
 
 
